@@ -5,6 +5,7 @@ import (
 	"encoding/json"
 	"fmt"
 	"io"
+	"sort"
 	"strings"
 
 	"github.com/ddddddO/gtree"
@@ -105,13 +106,41 @@ func c04Judge(c *rep.Ctx, d []int, names []string, enc, route string) {
 	var out string
 	var err error
 	var pan string
-	if route == "md" {
-		out, err, pan = sut.Output(enum.Spell(d, names, enum.Canonical), encOpt(enc))
-	} else {
-		var buf bytes.Buffer
-		pan = sut.Guard(func() { err = gtree.OutputFromRoot(&buf, sut.BuildRoot(f[0]), encOpt(enc)) })
-		out = buf.String()
+	// routes: md | root, optionally followed by "+<variant>": noiter (the benchmark switch), alias (the deprecated
+	// entry point), massive (roots may come in any order), plus / star-tab (other spellings of the same list),
+	// opts (options that do not concern the encoders)
+	base, variant, _ := strings.Cut(route, "+")
+	opts := []gtree.Option{encOpt(enc)}
+	sp := enum.Canonical
+	switch variant {
+	case "noiter":
+		opts = append(opts, gtree.WithNoUseIterOfSimpleOutput())
+	case "massive":
+		opts = append(opts, extraOpts("massive", "")...)
+	case "plus":
+		sp = enum.Spelling{Unit: "    ", Bullets: []byte("+")}
+	case "plus-massive":
+		sp = enum.Spelling{Unit: "  ", Bullets: []byte("+*")}
+		opts = append(opts, extraOpts("massive-nil", "")...)
+	case "star-tab":
+		sp = enum.Spelling{Unit: "\t", Bullets: []byte("*-")}
+	case "opts":
+		opts = append(extraOpts("fmt,exts,nil,strict", ""), append(opts, extraOpts("target,nil", "/nonexistent/never/used")...)...)
 	}
+	var buf bytes.Buffer
+	pan = guardMaybeMassive(strings.Contains(variant, "massive"), func() {
+		switch {
+		case base == "md" && variant == "alias":
+			err = gtree.Output(&buf, strings.NewReader(enum.Spell(d, names, sp)), opts...)
+		case base == "md":
+			err = gtree.OutputFromMarkdown(&buf, strings.NewReader(enum.Spell(d, names, sp)), opts...)
+		case variant == "alias":
+			err = gtree.OutputProgrammably(&buf, sut.BuildRoot(f[0]), opts...)
+		default:
+			err = gtree.OutputFromRoot(&buf, sut.BuildRoot(f[0]), opts...)
+		}
+	})
+	out = buf.String()
 	c.Eval()
 	c.Trans(len(d))
 	rp := c04Replay{"c04", append([]int{}, d...), names, enc, route}
@@ -130,10 +159,22 @@ func c04Judge(c *rep.Ctx, d []int, names []string, enc, route string) {
 		c.Violation("C04|not-wellformed|"+tag, fmt.Sprintf("names=%q depth=%v: output %q does not parse: %v", names, d, out, derr), size, rp)
 		return
 	}
+	if strings.Contains(variant, "massive") {
+		// the massive option may emit the roots in any order: compare as multisets of roots
+		sortForest(got)
+		want = want.Clone()
+		sortForest(want)
+	}
 	if !model.Equal(got, want) {
 		c.Violation("C04|not-isomorphic|"+tag, fmt.Sprintf("names=%q depth=%v: output %q decodes to %s, tree is %s", names, d, out, model.Key(got), model.Key(want)), size, rp)
 	}
 }
+
+func sortForest(f model.Forest) {
+	sort.SliceStable(f, func(i, j int) bool { return model.Key(model.Forest{f[i]}) < model.Key(model.Forest{f[j]}) })
+}
+
+var c04Variants = []string{"noiter", "alias", "massive", "plus", "plus-massive", "star-tab", "opts"}
 
 func init() {
 	props["C04"] = func(c *rep.Ctx) {
@@ -160,6 +201,19 @@ func init() {
 				}
 				if roots == 1 {
 					c04Judge(c, d, names, enc, "root")
+				}
+				if len(d) <= 5 || len(d) > 9 {
+					for _, v := range c04Variants {
+						if (v == "plus" || v == "plus-massive" || v == "star-tab") && (rootOnlyNames || len(names[0]) != 1 || strings.TrimSpace(strings.Join(names, "")) == "") {
+							continue // other spellings: for the plain alphabets only
+						}
+						if !rootOnlyNames {
+							c04Judge(c, d, names, enc, "md+"+v)
+						}
+						if roots == 1 && !strings.HasPrefix(v, "plus") && v != "star-tab" {
+							c04Judge(c, d, names, enc, "root+"+v)
+						}
+					}
 				}
 			}
 		}
